@@ -160,6 +160,45 @@ def check_exact(ctx, regs: List[Registration]) -> None:
             ctx.bad("C03.exact", r.fn, enclosing_stmt(r.node), f"the undo entry removes `{elem}` from a set although adding to a set is idempotent and nothing shows that `{elem}` was absent before: for an element that was already there the exit removes a link that existed on entry (e.g. `with model: model.repair()` wipes every gene-reaction link)")
 
 
+def _resettable_entry(ctx, rt: FuncInfo, reg: ast.Call):
+    """(object expr, value expr) the registered undo entry of resettable.wrapper hands to the raw setter `func`, or None.
+
+    Accepted spellings: partial(func, a, b); lambda [x=a, y=b]: func(..); a nested def whose body is `return func(..)` /
+    `func(..)` - arguments that are parameters are replaced by their defaults (early binding), free variables are taken
+    as they are (the wrapper assigns them once and is not a loop, so late binding reads the same values)."""
+    arg = reg.args[0] if reg.args else None
+    if isinstance(arg, ast.Call) and norm(arg.func).split(".")[-1] == "partial" and len(arg.args) == 3 and norm(arg.args[0]) == "func" and not arg.keywords:
+        return arg.args[1], arg.args[2]
+    fn_node = None
+    if isinstance(arg, ast.Lambda):
+        fn_node = arg
+        calls = [arg.body] if isinstance(arg.body, ast.Call) else []
+    elif isinstance(arg, ast.Name) and arg.id in rt.nested:
+        fn_node = rt.nested[arg.id].node
+        stmts = [s_ for s_ in fn_node.body if not (isinstance(s_, ast.Expr) and isinstance(s_.value, ast.Constant))]
+        calls = [s_.value for s_ in stmts if isinstance(s_, (ast.Return, ast.Expr)) and isinstance(s_.value, ast.Call)] if len(stmts) == 1 else []
+    else:
+        return None
+    if len(calls) != 1 or norm(calls[0].func) != "func" or len(calls[0].args) != 2 or calls[0].keywords:
+        return None
+    a = fn_node.args
+    names = [x.arg for x in a.posonlyargs + a.args]
+    defaults = dict(zip(names[len(names) - len(a.defaults):], a.defaults))
+    for x, d in zip(a.kwonlyargs, a.kw_defaults):
+        if d is not None:
+            defaults[x.arg] = d
+    if any(n not in defaults for n in names):
+        return None  # a parameter without default: the history calls entries without arguments
+    out = []
+    for e in calls[0].args:
+        if isinstance(e, ast.Name) and e.id in defaults:
+            out.append(defaults[e.id])
+        else:
+            out.append(e)
+    # free variables must not be reassigned after the definition
+    return out[0], out[1]
+
+
 def check_resettable(ctx) -> None:
     """resettable.wrapper: with an active context, every call of the wrapped setter with a changed value is preceded by
     the registration of `func(self, old_value)` - unconditionally (T1 must-pass-through)."""
@@ -188,11 +227,11 @@ def check_resettable(ctx) -> None:
         ctx.ok("C03.inverse", fn, enclosing_stmt(regs[0]), "every call of the wrapped setter under an active context is preceded by the registration of the old value (skipped only when old == new, where the function returns)")
     # the registered callable is the wrapped function itself with the same object and the old value
     r = regs[0]
-    arg = r.args[0] if r.args else None
-    if isinstance(arg, ast.Call) and norm(arg.func) == "partial" and [norm(a) for a in arg.args] == ["func", "self", "old_value"]:
-        ctx.ok("C03.inverse", fn, enclosing_stmt(r), "the entry is func(self, old_value): the raw setter, which records nothing itself", nontrivial=False)
+    ent = _resettable_entry(ctx, fn, r)
+    if ent is not None and norm(ent[0]) == (fn.node.args.args[0].arg if fn.node.args.args else "self"):
+        ctx.ok("C03.inverse", fn, enclosing_stmt(r), "the entry calls the raw setter `func` on the same object with the value read before the change; it records nothing itself", nontrivial=False)
     else:
-        ctx.bad("C03.inverse", fn, enclosing_stmt(r), "the registered entry is not `partial(func, self, old_value)`")
+        ctx.bad("C03.inverse", fn, enclosing_stmt(r), "the registered entry does not call the raw setter `func` on the same object with the old value")
 
 
 def check_objective_atomic(ctx) -> None:
@@ -473,9 +512,9 @@ def check_stack(ctx) -> None:
     body_calls = [n for n in walk_local(rt.node) if isinstance(n, ast.Call) and isinstance(n.func, ast.Name) and n.func.id == "func"]
     ok = False
     if regs and body_calls:
-        r = ctx.eff.decode_registration(rt, regs[0])
-        if isinstance(r.target, ast.Name) and r.target.id == "func" and len(r.args) == 2:
-            old = r.args[1]
+        ent = _resettable_entry(ctx, rt, regs[0])
+        if ent is not None:
+            old = ent[1]
             owner, defs = ctx.inf.lookup_name(rt, old.id) if isinstance(old, ast.Name) else (None, [])
             if defs and all(d.kind == "assign" and isinstance(d.value, ast.Call) and norm(d.value.func) == "getattr" for d in defs):
                 ok = True
